@@ -179,7 +179,14 @@ def _evaluate_require(ast, file_path, package_lua, lua_path=None):
                 if game_loop_stats:
                     tokens = list(reqd_lua.tokens)
                     for s in reversed(game_loop_stats):
-                        del tokens[s.start_pos:s.end_pos]
+                        # (A removed range that held a line break leaves one
+                        # behind, so code after the function's "end" does not
+                        # join the line before the function.)
+                        has_newline = any(
+                            isinstance(t, lexer.TokNewline)
+                            for t in tokens[s.start_pos:s.end_pos])
+                        tokens[s.start_pos:s.end_pos] = (
+                            [lexer.TokNewline(b'\n')] if has_newline else [])
                     reqd_lua = lua.Lua.from_lines(
                         lua.LuaEchoWriter(tokens=tokens, root=None).to_lines(),
                         version=game.DEFAULT_VERSION)
